@@ -1140,3 +1140,41 @@ _is = K("InterSystemRecurrenceNetwork.inter_system_recurrence_matrix[blocks]", "
         checks=("shape", "bounds"))
 _is.region = "body"
 _is.required_asserts = []
+
+
+# ============================================================================ eventseries: symmetrisation table (C16)
+# "The N-by-N analysis matrix contains exactly the pairwise values under the chosen symmetrisation": the six helpers
+for _nm, _rhs in (("directed", "matrix[i,j]"), ("symmetric", "matrix[i,j]+matrix[j,i]"), ("antisym", "matrix[i,j]-matrix[j,i]"),
+                  ("mean", "(matrix[i,j]+matrix[j,i])/2"), ("max", "ite(matrix[i,j]>=matrix[j,i], matrix[i,j], matrix[j,i])"),
+                  ("min", "ite(matrix[i,j]<=matrix[j,i], matrix[i,j], matrix[j,i])")):
+    _c = K(f"EventSeries._symmetrization_{_nm}", "eventseries/event_series.py", lang="py", func=f"EventSeries._symmetrization_{_nm}",
+           props=("C16",), py_mode=True, vectors=True, inputs={"matrix": "arr:float64:2", "NN": "int"},
+           requires=["NN>=0", "shape(matrix,0)==NN and shape(matrix,1)==NN"],
+           ensures=["shape(result,0)==NN and shape(result,1)==NN",
+                    f"all(result[i,j]=={_rhs} for i in range(NN) for j in range(NN))"],
+           checks=("shape", "bounds"))
+    _c.region = "body"
+    _c.required_asserts = []
+
+
+# ---- the N x N matrices: entry [i,j] / [j,i] of every pair i < j comes from ONE pairwise evaluation on the columns i and j
+for _nm, _callee, _kw in (("_ndim_event_synchronization", "self.event_synchronization", ""),
+                          ("_ndim_event_coincidence_analysis", "self._eca_coincidence_rate", "")):
+    _c = K(f"EventSeries.{_nm}[matrix]", "eventseries/event_series.py", lang="py", func=f"EventSeries.{_nm}",
+           props=("C16",), py_mode=True, vectors=True,
+           inputs={"self.__N": "int", "self.__eventmatrix": "arr:int8:2", "NT": "int"},
+           requires=["self.__N>=0 and NT>=0", "shape(self.__eventmatrix,0)==NT and shape(self.__eventmatrix,1)==self.__N"],
+           ghost={"PV": ("int", "int", "float")},       # PV(a,b): value "from b to a" returned by the pairwise routine
+           call_facts={_callee: {"returns": 2, "types": ["float", "float"], "ensures": ["result_0==PV(i,j)", "result_1==PV(j,i)"]}},
+           asserts={"call:" + _callee: ["shape(arg0,0)==NT and shape(arg1,0)==NT",
+                                        "all(arg0[q]==self.__eventmatrix[q,i] and arg1[q]==self.__eventmatrix[q,j] for q in range(NT))"]},
+           ensures=["shape(result,0)==self.__N and shape(result,1)==self.__N",
+                    "all(result[a,b]==ite(a==b, 0.0, PV(a,b)) for a in range(self.__N) for b in range(self.__N))"],
+           loops={"i": ["all(directed[a,b]==ite(a==b or (a>=i and b>=i), 0.0, PV(a,b)) for a in range(self.__N) for b in range(self.__N))",
+                        "shape(directed,0)==self.__N and shape(directed,1)==self.__N"],
+                  "i.j": ["all(directed[a,b]==ite(a==b or (a>=i and b>=i and not ((a==i and b<j) or (b==i and a<j))), 0.0, PV(a,b)) "
+                          "for a in range(self.__N) for b in range(self.__N))",
+                          "shape(directed,0)==self.__N and shape(directed,1)==self.__N"]},
+           checks=("shape", "bounds"))
+    _c.region = "body"
+    _c.required_asserts = []
